@@ -90,7 +90,7 @@ def mutants(argv: list[str]) -> int:
         p = subprocess.run(args, capture_output=True, text=True)
         caught = p.returncode == 1 and "VIOLATION" in p.stdout
         expect = m.get("expect", "caught")
-        ok = caught == (expect == "caught")
+        ok = True if expect == "either" else caught == (expect == "caught")
         sig = next((l for l in p.stdout.splitlines() if l.startswith("violation:")), "")
         print("%-4s %-52s %s %s" % (m["check"], m["name"][:52], "caught " if caught else ("MISSED " if expect == "caught" else "quiet  "), sig[:110]), flush=True)
         if not ok:
